@@ -381,6 +381,11 @@ func main() {
 	}
 	if len(samples) > 0 || violations > 0 {
 		os.WriteFile(evPath, b, 0o644)
+		if tier == "thorough" && os.Getenv("VERIF_REPO") == "" {
+			// keep a copy: the next quick run rewrites evidence/<id>.json
+			os.MkdirAll(filepath.Join(root, "evidence", "thorough"), 0o755)
+			os.WriteFile(filepath.Join(root, "evidence", "thorough", prop+".json"), b, 0o644)
+		}
 	}
 
 	vl := keys(violLines)
